@@ -309,10 +309,10 @@ func checkC01(r *core.Run, p *core.Program) {
 		return
 	}
 	type planeTable struct {
-		byVal   map[int64]*cbeCase
-		masked  map[int64]*cbeCase // cases of a `switch code & mask`
-		mask    int64
-		deflt   *cbeCase
+		byVal  map[int64]*cbeCase
+		masked map[int64]*cbeCase // cases of a `switch code & mask`
+		mask   int64
+		deflt  *cbeCase
 	}
 	extract := func(f *fn) planeTable {
 		pt := planeTable{byVal: map[int64]*cbeCase{}, masked: map[int64]*cbeCase{}}
